@@ -134,6 +134,11 @@ pub enum Link {
     Unary,
     AndOp,
     StmtCall,
+    /// `return f()` directly (a cycle made only of TailCall / MakeCall / StmtCall links and
+    /// not bounded uses zero-argument functions, so that no other expression is evaluated)
+    TailCall,
+    /// `make t get f()` then `return t`
+    MakeCall,
     /// the call sits inside k nested bare blocks
     Blocks(u16),
     /// ... inside k nested `if to say`
@@ -159,6 +164,8 @@ impl Link {
             Link::Unary => "unary-operand",
             Link::AndOp => "logical-operand",
             Link::StmtCall => "expression-statement",
+            Link::TailCall => "bare-return-call",
+            Link::MakeCall => "declaration-initialiser",
             Link::Blocks(_) => "nested-blocks",
             Link::Ifs(_) => "nested-ifs",
             Link::Loops(_) => "nested-loops",
@@ -193,6 +200,8 @@ impl Link {
             "unary-operand" => Link::Unary,
             "logical-operand" => Link::AndOp,
             "expression-statement" => Link::StmtCall,
+            "bare-return-call" => Link::TailCall,
+            "declaration-initialiser" => Link::MakeCall,
             "nested-blocks" => Link::Blocks(k),
             "nested-ifs" => Link::Ifs(k),
             "nested-loops" => Link::Loops(k),
@@ -231,6 +240,8 @@ impl Link {
                 out.push_str(&format!("if to say (true and ({call} na 0)) start return 0 end\nreturn 1\n"));
             }
             Link::StmtCall => out.push_str(&format!("{call}\nreturn 0\n")),
+            Link::TailCall => out.push_str(&format!("return {call}\n")),
+            Link::MakeCall => out.push_str(&format!("make t get {call}\nreturn t\n")),
             Link::Blocks(k) => nest(out, k, "start\n", "end\n"),
             Link::Ifs(k) => nest(out, k, "if to say (true) start\n", "end\n"),
             Link::Loops(k) => nest(out, k, "jasi (true) start\n", "comot\nend\n"),
@@ -554,6 +565,18 @@ impl Shape {
                     }
                 }
             }
+            Shape::Cycle { links, bounded }
+                if !*bounded && links.iter().all(|l| matches!(l, Link::TailCall | Link::MakeCall | Link::StmtCall)) =>
+            {
+                // zero-argument functions: the call is the only expression in the body
+                let m = links.len();
+                for (i, link) in links.iter().enumerate() {
+                    s.push_str(&format!("do f{i}() start\n"));
+                    link.body(&format!("f{}()", (i + 1) % m), &mut s);
+                    s.push_str("end\n");
+                }
+                s.push_str("shout(f0())\n");
+            }
             Shape::Cycle { links, bounded } => {
                 s.push_str("do idf(v) start return v end\n");
                 let m = links.len();
@@ -809,6 +832,8 @@ fn link_strategy() -> impl Strategy<Value = Link> {
         1 => Just(Link::Unary),
         1 => Just(Link::AndOp),
         1 => Just(Link::StmtCall),
+        2 => Just(Link::TailCall),
+        1 => Just(Link::MakeCall),
         3 => k.clone().prop_map(Link::Blocks),
         2 => k.clone().prop_map(Link::Ifs),
         2 => k.prop_map(Link::Loops),
@@ -893,7 +918,7 @@ pub fn work_list(seed: u64, tier: Tier) -> Vec<Unit> {
         }
     }
     // (A) cycles from the grammar; the single-link cycles first so that every link is met
-    let singles: [Link; 17] = [
+    let singles: [Link; 19] = [
         Link::OperandRight,
         Link::OperandLeft,
         Link::UserArg,
@@ -908,10 +933,22 @@ pub fn work_list(seed: u64, tier: Tier) -> Vec<Unit> {
         Link::Unary,
         Link::AndOp,
         Link::StmtCall,
+        Link::TailCall,
+        Link::MakeCall,
         Link::Blocks(600),
         Link::Ifs(600),
         Link::Loops(600),
     ];
+    // cycles whose only expression is the call itself (zero-argument functions): both tiers
+    for links in [
+        vec![Link::TailCall],
+        vec![Link::TailCall, Link::TailCall],
+        vec![Link::MakeCall],
+        vec![Link::StmtCall],
+        vec![Link::TailCall, Link::StmtCall, Link::MakeCall],
+    ] {
+        shapes.push(Shape::Cycle { links, bounded: false });
+    }
     if tier == Tier::Thorough {
         for l in singles {
             for bounded in [true, false] {
